@@ -1,15 +1,14 @@
 SPECIFICATION Spec
 CONSTANTS
-    Configs <- MCQuickAll
+    Configs <- MCQuickFlap
     MaxAge = 3
     MaxDt = 2
     MaxBDt = 1
-    LeaveOKStartsDuration = TRUE
+    LeaveOKStartsDuration = FALSE
     MaxBatch = 2
 INVARIANTS
     TypeOK
     LevelRule
     EmitIff
     EventCarries
-    ImplRefinesRef
 CHECK_DEADLOCK FALSE
